@@ -199,3 +199,7 @@ mod tests {
         Ok(())
     }
 }
+
+#[cfg(noodles_verif)]
+#[doc(hidden)]
+pub use self::op::__verif_decode_op;
